@@ -29,6 +29,8 @@ REPO_SOURCES = ["src/module.c", "src/log.c", "src/config.c", "src/set.c", "src/c
 def _build_stub(args):
     src, out, name = args
     cmd = ["gcc", "-shared", "-fPIC", "-O1", "-g", "-Wall", "-DSTUB_NAME=\"%s\"" % name, src, "-o", out]
+    if out.endswith(".nh.so"):
+        cmd.insert(1, "-DSTUB_NO_POST_INIT")
     p = subprocess.run(cmd, stdout=subprocess.PIPE, stderr=subprocess.STDOUT, text=True)
     return p.returncode, " ".join(cmd) + "\n" + p.stdout
 
@@ -38,7 +40,8 @@ def build_harness(wd, prop):
     stubs = os.path.join(wd, "stubs")
     os.makedirs(stubs, exist_ok=True)
     src = os.path.join(core.HARNESS_DIR, "stub_module.c")
-    jobs = [(src, os.path.join(stubs, n + ".so"), n) for n in POOL]
+    jobs = [(src, os.path.join(stubs, n + ".so"), n) for n in POOL] + \
+           [(src, os.path.join(stubs, n + ".nh.so"), n) for n in POOL]
     with ThreadPoolExecutor(max_workers=core.NCPU) as ex:
         fut = ex.submit(core.compile_c, wd, "h_module",
                         [os.path.join(core.HARNESS_DIR, "h_module.c")] + [os.path.join(r, s) for s in REPO_SOURCES],
@@ -107,7 +110,7 @@ def projector(prop):
 
 
 def spec_name(prop):
-    return "Iauthd.Module.judge (checker reading of C20 on the observed exit status and event log)"
+    return "Iauthd.Module.judgeH (checker reading of C20 on the observed exit status and event log; post-init order read transitively through hook-less modules)"
 
 
 def correspondence_name(prop):
@@ -132,6 +135,11 @@ THEOREMS = [
     "Iauthd.Properties.C20.fuel_suffices",
     "Iauthd.Properties.C20.C20_judge",
     "Iauthd.Properties.C20.judge_demand_exact",
+    # modules without a post-init hook (optional per README): hook-aware judge, transitive order
+    "Iauthd.Properties.C20.C20_judge_hookless",
+    "Iauthd.Properties.C20.hookless_pruned_walk_fails_judge",
+    "Iauthd.Module.judgeH_of_judge",
+    "Iauthd.Module.woH_hide",
     # the pinned module_dfs fails (F20), checked by `decide`
     "Iauthd.Properties.C20.pinned_diamond_aborts",
     "Iauthd.Properties.C20.pinned_triangle_aborts",
@@ -160,7 +168,7 @@ def lean_targets(prop):
 def lean_modules(prop):
     return ["Iauthd.Module.Model", "Iauthd.Module.Spec", "Iauthd.Module.ProofsBasic", "Iauthd.Module.ProofsLoad",
             "Iauthd.Module.ProofsDfs", "Iauthd.Module.ProofsClose", "Iauthd.Module.ProofsSpec",
-            "Iauthd.Module.Proofs", "Iauthd.Properties.C20"]
+            "Iauthd.Module.Proofs", "Iauthd.Module.ProofsHook", "Iauthd.Properties.C20"]
 
 
 def checker_cmd(prop):
@@ -199,10 +207,12 @@ def classify(prop, f):
 
 # ---------------------------------------------------------------- generators
 
-def fmt_case(name, graph, bad, lists, tags=None):
-    """graph: list of (module, [deps]) in any order; lists: list of lists."""
+def fmt_case(name, graph, bad, lists, tags=None, nohook=()):
+    """graph: list of (module, [deps]) in any order; lists: list of lists; nohook: modules built
+    without a module_post_init hook."""
     g = ";".join("%s:%s" % (m, ",".join(ds)) for m, ds in graph) or "-"
-    line = "graph %s bad=%s %s" % (g, ",".join(bad), " ".join("list=" + ",".join(l) for l in lists))
+    line = "graph %s bad=%s %s%s" % (g, ",".join(bad), ("nohook=%s " % ",".join(nohook)) if nohook else "",
+                                     " ".join("list=" + ",".join(l) for l in lists))
     return Case(name, [line], tags=tags or {})
 
 
@@ -282,7 +292,28 @@ def random_case(rng, name, kind, n=None):
     if rng.random() < 0.06:                  # a second module_load_list call (exploration only)
         lists.append(rng.sample(names, rng.choice([1, 2])))
         tags["two_lists"] = True
-    return fmt_case(name, graph, bad, lists, tags=tags)
+    nohook = []
+    if rng.random() < 0.4:                   # the post-init hook is optional (README)
+        nohook = [m for m in names if rng.random() < rng.choice([0.2, 0.5, 0.9])]
+        tags["nohook"] = len(nohook)
+    return fmt_case(name, graph, bad, lists, tags=tags, nohook=nohook)
+
+
+def nohook_variants(cases, rng, per_case=1):
+    """copies of enumerated cases in which some (or all) modules lack the post-init hook"""
+    out = []
+    for c in cases:
+        m = _OP.match(c.lines[-1])
+        if not m:
+            continue
+        names = sorted(set(re.findall(r"[A-Za-z0-9_]+", m.group(1) + " " + m.group(4).replace("list=", " "))))
+        if not names:
+            continue
+        for k in range(per_case):
+            sub = [n for n in names if rng.random() < 0.5] or [rng.choice(names)]
+            line = "graph %s bad=%s nohook=%s %s" % (m.group(1), m.group(2), ",".join(sub), m.group(4))
+            out.append(Case(c.name + "/nh%d" % k, [line], tags=dict(c.tags, nohook=len(sub))))
+    return out
 
 
 MALFORMED = [
@@ -308,6 +339,8 @@ def gen_cases(prop, tier, seed):
                 cases += enum_cases(n, names, "enum%d" % mi, "all")
         cases += enum_cases(3, maps[0], "enum0", "two")
         cases += enum_cases(3, maps[1], "enum1", "asc", self_loops=False)
+        cases += nohook_variants([c for c in cases if c.tags.get("n", 0) <= 2], rng, 2)
+        cases += nohook_variants(rng.sample([c for c in cases if c.tags.get("n") == 3 and "nohook" not in c.tags], 3000), rng, 1)
         n_random = 1500
     else:
         for mi, names in enumerate(maps[:2]):
@@ -317,6 +350,7 @@ def gen_cases(prop, tier, seed):
         cases += enum_cases(3, maps[1], "enum1", "two")
         # all loop-free digraphs on 4 labelled nodes x all 64 listings
         cases += enum_cases(4, maps[1], "enum1", "asc", self_loops=False)
+        cases += nohook_variants([c for c in cases if c.tags.get("n", 0) <= 3], rng, 2)
         n_random = 20000
     for i in range(n_random):
         kind = rng.choice(["dag", "dag", "dag", "cyclic", "cyclic", "any", "bad"])
@@ -333,7 +367,7 @@ def search_cases(prop, finding, seed):
 
 # ---------------------------------------------------------------- coverage (measured)
 
-_OP = re.compile(r"^graph (\S+) bad=(\S*) (.*)$")
+_OP = re.compile(r"^graph (\S+) bad=(\S*) (?:nohook=(\S*) )?(.*)$")
 
 
 def _parse(line):
@@ -347,7 +381,7 @@ def _parse(line):
                 k, ds = ent.split(":", 1)
                 g[k] = [d for d in ds.split(",") if d]
     bad = set(x for x in m.group(2).split(",") if x)
-    lists = [[x for x in f[5:].split(",") if x] for f in m.group(3).split() if f.startswith("list=")]
+    lists = [[x for x in f[5:].split(",") if x] for f in m.group(4).split() if f.startswith("list=")]
     return g, bad, lists
 
 
